@@ -184,7 +184,7 @@ func runC01(c *checker) {
 	if c.replayOrCorpus("C01") {
 		return
 	}
-	nProg, nVal := pick(6, 60), pick(100, 200)
+	nProg, nVal := pick(8, 90), pick(100, 200)
 	if *programs > 0 {
 		nProg = *programs
 	}
